@@ -1056,6 +1056,25 @@ def r_constant_verbatim(rule, root=None):
         rule.bad("constant|value", "Context::constant must intern `Op::Const(OrderedFloat(%s))` of its own argument" % f, A.where(CTX, fn))
 
 
+def r_clear_covers_fields(rule, root=None):
+    """`Context::clear()` forgets everything: node handles are plain indices into `ops`, so any other table that holds
+    them (memoised axes, derivative caches) must be emptied with it, or it hands out indices into the *next* graph"""
+    d = A.load(CTX, root)
+    st = [it for it in A.find(d, "StructDef") if it.get("name") == "Context"]
+    fn = A.find_fn(CTX, "clear", self_ty="Context", root=root)
+    if not st or not isinstance(st[0].get("fields"), list):
+        rule.lost("struct Context")
+        return
+    t = str(A.ftxt(fn["body"]))
+    whole = "*self=" in t
+    for f in st[0]["fields"]:
+        n = f.get("name")
+        if whole or ("self.%s.clear()" % n) in t or ("self.%s=" % n) in t or ("self.%s.fill(" % n) in t or ("self.%s.take()" % n) in t:
+            rule.ok("Context::clear resets `%s`" % n, file=CTX, line=fn["ln"])
+        else:
+            rule.bad("clear|%s" % n, "Context::clear() leaves the field `%s` as it is: after a clear it still refers to nodes of the discarded graph, and the indices it holds alias whatever is built next" % n, A.where(CTX, fn))
+
+
 def run(ctx):
     r = ctx.rule("R1", "constructor rewrites are identities over the reals under their premises", 20)
     ctx.guarded(r, r1_rewrites)
@@ -1068,6 +1087,8 @@ def run(ctx):
 
     r = ctx.rule("R2b", "the opcode evaluators that constant folding applies compute their namesake operator", 30)
     ctx.guarded(r, r_reference_eval)
+    r = ctx.rule("R2d", "Context::clear() resets every field of Context", 1)
+    ctx.guarded(r, r_clear_covers_fields)
     r = ctx.rule("R2c", "constants enter the arena bit for bit: Context::constant interns its argument unchanged", 1)
     ctx.guarded(r, r_constant_verbatim)
     r = ctx.rule("R3", "import/export push and pop operands in matching order and rebuild with the same opcode", 21)
